@@ -38,8 +38,16 @@ def check_bytes(c, kind, b, direct=True):
 
 
 def check_tx(c, tx, every_offset, budget):
-    toks = gen.tx_tokens(tx)
+    toks = gen.tx_tokens(tx.plain)
+    held = gen.tx_tokens(tx)
+    if held != toks:
+        # "serialising any transaction": the object must hold the field values it was constructed from
+        c.fail("a constructed transaction does not hold the values it was constructed from",
+               {"op": "tx.construct", "tx": toks[:20000], "held": held[:20000]})
     ser = tx.serialize()
+    if ser != gen.wire_of(tx.plain):
+        c.fail("the serialisation is not the wire encoding of the values the transaction was constructed from",
+               {"op": "tx.ser", "tx": toks[:20000], "wire": hx(ser)[:20000], "expected": hx(gen.wire_of(tx.plain))[:20000]})
     c.count(("tx", toks), nontrivial=len(tx.vin) > 1 or tx.is_segwit)
     c.tally("tx:" + gen.tx_shape(tx))
     info = {"tx": toks[:20000]}
@@ -50,7 +58,7 @@ def check_tx(c, tx, every_offset, budget):
     back = impl_parse(ser)
     if back != "ok " + toks:
         c.fail("serialise-then-parse is not the identity", {"op": "tx.roundtrip", "tx": toks[:20000], "parsed": back[:20000]})
-    for kind, b in gen.mutations(c.rng, tx, every_offset, budget):
+    for kind, b in gen.mutations(c.rng, tx.plain, every_offset, budget):
         check_bytes(c, kind, b)
     c.sample({"tx": toks[:300], "wire": hx(ser)[:300]})
 
